@@ -71,8 +71,8 @@ func outcomes() []outcome {
 		{"plainhttp", "0/", func(st *bubble.Stack, an string) (*bubble.Client, []bubble.Step) {
 			h := &holder{}
 			return nil, []bubble.Step{
-				{Name: "dial+GET", Do: func() { h.c = st.DialRaw(an, nil); h.c.Raw.Write([]byte("GET / HTTP/1.1\r\nHost: x\r\n\r\n")) }},
-				{Name: "close", Do: func() { h.c.Raw.Close() }}}
+				{Name: "dial+GET", Do: func() { h.c = st.DialRaw(an, nil); h.c.RawWrite([]byte("GET / HTTP/1.1\r\nHost: x\r\n\r\n")) }},
+				{Name: "close", Do: func() { h.c.Abort(nil) }}}
 		}},
 		{"garbage", "0/", func(st *bubble.Stack, an string) (*bubble.Client, []bubble.Step) {
 			h := &holder{}
@@ -83,22 +83,22 @@ func outcomes() []outcome {
 					for i := range b {
 						b[i] = byte(i*37 + 11)
 					}
-					h.c.Raw.Write(b)
+					h.c.RawWrite(b)
 				}},
-				{Name: "close", Do: func() { h.c.Raw.Close() }}}
+				{Name: "close", Do: func() { h.c.Abort(nil) }}}
 		}},
 		mk("stall", "0/", withManual(helloH2), func(h *holder) []bubble.Step {
 			return []bubble.Step{
-				{Name: "deliver 3 bytes", Do: func() { h.c.Raw.Deliver(3) }},
+				{Name: "deliver 3 bytes", Do: func() { h.c.Deliver(3) }},
 				{Name: "clock+11s", Do: func() { time.Sleep(11 * time.Second) }},
 				closeStep(h)}
 		}),
 		mk("abort0", "0/", withManual(helloH1), func(h *holder) []bubble.Step { return []bubble.Step{abortStep(h)} }),
 		mk("abortMidHello", "0/", withManual(helloH2), func(h *holder) []bubble.Step {
-			return []bubble.Step{{Name: "deliver 50 bytes", Do: func() { h.c.Raw.Deliver(50) }}, abortStep(h)}
+			return []bubble.Step{{Name: "deliver 50 bytes", Do: func() { h.c.Deliver(50) }}, abortStep(h)}
 		}),
 		mk("abortAfterHello", "0/", withManual(helloH1), func(h *holder) []bubble.Step {
-			return []bubble.Step{{Name: "deliver hello", Do: func() { h.c.Raw.Deliver(-1) }}, abortStep(h)}
+			return []bubble.Step{{Name: "deliver hello", Do: func() { h.c.Deliver(-1) }}, abortStep(h)}
 		}),
 		mk("abortAfterHS-h2", "1/h2", helloH2, func(h *holder) []bubble.Step { return []bubble.Step{abortStep(h)} }),
 		mk("abortAfterHS-h1", "1/http/1.1", helloH1, func(h *holder) []bubble.Step { return []bubble.Step{abortStep(h)} }),
@@ -114,6 +114,9 @@ func outcomes() []outcome {
 		}),
 	}
 }
+
+// withCancel: a fourth actor cancels the server context at some point of the run (shutdown racing with connections)
+var withCancel bool
 
 func runOne(t *testing.T, ms []outcome, c *mc.Chooser) (out mc.Outcome) {
 	viol := func(sig, f string, a ...any) {
@@ -133,6 +136,10 @@ func runOne(t *testing.T, ms []outcome, c *mc.Chooser) (out mc.Outcome) {
 			actors = append(actors, &bubble.Actor{Name: an, Steps: steps})
 			want[o.label]++
 			holders[an] = o.label
+		}
+		cancelled := false
+		if withCancel {
+			actors = append(actors, &bubble.Actor{Name: "cancel", Steps: []bubble.Step{{Name: "cancel server context", Do: func() { cancelled = true; st.Cancel() }}}})
 		}
 		// name server-side conns after their actor as soon as they exist
 		named := 0
@@ -160,6 +167,10 @@ func runOne(t *testing.T, ms []outcome, c *mc.Chooser) (out mc.Outcome) {
 			var sb []string
 			for _, k := range keys {
 				sb = append(sb, fmt.Sprintf("%s=%v", k, cnt[k]))
+				if cancelled {
+					// after cancellation a connection may legitimately end as a failed handshake: judged at the end only
+					continue
+				}
 				if int(cnt[k]) > closed[k] {
 					viol("counted-before-end-or-twice:"+k, "requests_total{%s}=%v but only %d connection(s) expected under that label have ended (expected multiset %v; trace %v)", k, cnt[k], closed[k], want, c.Trace())
 					return false
@@ -182,7 +193,33 @@ func runOne(t *testing.T, ms []outcome, c *mc.Chooser) (out mc.Outcome) {
 		})
 		gates.Open()
 		st.Shutdown()
-		if len(out.Violations) == 0 {
+		if len(out.Violations) == 0 && withCancel {
+			// with a shutdown in the middle: every ACCEPTED connection is still counted exactly once; a connection whose
+			// handshake had not finished at cancellation is counted as failed
+			cnt := st.Counter()
+			total, accepted := 0.0, 0
+			for _, v := range cnt {
+				total += v
+			}
+			for _, cl := range st.Clients() {
+				if cl.Srv != nil && cl.Srv.WasAccepted() {
+					accepted++
+				}
+			}
+			if int(total) != accepted {
+				sig := "not-counted"
+				if int(total) > accepted {
+					sig = "counted-twice"
+				}
+				viol(sig, "with cancellation during the run: %d connections were accepted, requests_total = %v (trace %v)", accepted, cnt, c.Trace())
+			}
+			for k, v := range cnt {
+				if k != "0/" && int(v) > want[k] {
+					viol("wrong-labels", "requests_total{%s}=%v exceeds the %d connection(s) that negotiated it (trace %v)", k, v, want[k], c.Trace())
+				}
+			}
+			out.Obs = fmt.Sprint(cnt)
+		} else if len(out.Violations) == 0 {
 			cnt := st.Counter()
 			total := 0.0
 			for _, v := range cnt {
@@ -256,6 +293,7 @@ func TestCheck(t *testing.T) {
 					continue
 				}
 				ms := []outcome{os[a], os[b], os[d]}
+				withCancel = (idx/stride)%3 == 2 // every third explored multiset also races a shutdown against the connections
 				e := &mc.Explorer{Bound: bound, Deadline: deadline}
 				func() {
 					defer func() {
@@ -270,6 +308,9 @@ func TestCheck(t *testing.T) {
 					e.Explore(func(c *mc.Chooser) mc.Outcome { return runOne(t, ms, c) })
 				}()
 				rep.Add("multisets", 1)
+				if withCancel {
+					rep.Add("multisets_with_cancel", 1)
+				}
 				rep.Add("schedules", int64(e.Schedules))
 				rep.Add("states", int64(e.Points))
 				rep.Add("transitions", int64(e.Points))
